@@ -1,12 +1,108 @@
 /-
   C17 — the chunk queue is an exact FIFO byte stream under all operations and
-  temp-file write faults.  Property theorems only (helper lemmas live in
+  temp-file write faults.  Property theorems only (helper lemmas, the system
+  invariant `Inv` and the reference semantics `specStep` live in
   LtVerif/Proofs/Cq.lean).
+
+  The theorems are about the closed system `Sys` of two chunk queues over one
+  `World` (file store, chunk pool, upload dirs and the scripted results of the
+  temp-file syscalls).  `step : Sys → Op → Sys × Res` is one operation of
+  src/chunk.c, `run` a whole history.  Fault schedules are part of the world
+  (`wsched`, `msched`): a theorem about all `s : Sys` is a theorem about all
+  fault schedules.
 -/
-import LtVerif.Model.Cq
+import LtVerif.Proofs.Cq
 namespace LtVerif.C17
 open LtVerif LtVerif.Cq
 
-theorem c17_placeholder (w : World) (q : Cq) : (reset w q).2.chunks = [] := rfl
+/-- the empty system: no files, two empty queues; `w` carries the configuration
+    and the fault schedules -/
+def init (w : World) (_ : w.nfiles = 0) : Sys := { w := w, q0 := {}, q1 := {} }
+
+/-- Exact accounting, for every history and every fault schedule: after any
+    sequence of operations (successful or failed) the length each queue reports
+    (bytes_in − bytes_out) is the number of bytes it still holds, every chunk's
+    offset lies inside the chunk and every file chunk lies inside its file. -/
+theorem c17_length_exact (s : Sys) (ops : List Op) (h : Inv s)
+    (hops : ∀ (pre : List Op) (op : Op) (post : List Op), ops = pre ++ op :: post → OpOK (run s pre) op)
+    (i : Bool) :
+    Inv (run s ops) ∧ ((run s ops).get i).length = (((run s ops).abs i).length : Int) := by
+  have hi := run_inv s ops h hops
+  exact ⟨hi, hi.length_abs i⟩
+
+/-- One operation, any fault schedule: the invariant is kept. -/
+theorem c17_step_inv (s : Sys) (op : Op) (h : Inv s) (hop : OpOK s op) : Inv (step s op).1 :=
+  step_inv s op h hop
+
+/-- FIFO refinement: every operation that does not write temp files acts on
+    the queued bytes exactly like the byte-string reference queue `specStep`
+    (append at the tail, consume at the head, transfers move a prefix of the
+    source to the tail of the destination, compaction / squash / removal of
+    empty chunks change nothing), and peek/read hand out the head of the
+    queue unmodified.
+    PARTIAL: the two spilling operations (append_mem_to_tempfile,
+    steal_with_tempfiles) are covered by `c17_length_exact` only; the full
+    statement is the same equation without `hns`. -/
+theorem c17_refines_fifo_partial (s : Sys) (op : Op) (h : Inv s) (hop : OpOK s op)
+    (hns : op.spills = false) :
+    ((step s op).1.abs op.qi, (step s op).1.abs (!op.qi)) =
+        specStep (fun fid => (s.w.files fid).content) (s.abs op.qi) (s.abs (!op.qi)) op (step s op).2 ∧
+      resOK (s.abs op.qi) op (step s op).2 :=
+  step_refines s op h hop hns
+
+/-- chunkqueue_steal(): the first min(n, |src|) bytes of src move to the tail
+    of dest, in order and unmodified; nothing else changes. -/
+theorem c17_steal_fifo (s : Sys) (i : Bool) (n : Nat) (h : Inv s) :
+    (step s (.steal i n)).1.abs i = s.abs i ++ (s.abs (!i)).take n ∧
+      (step s (.steal i n)).1.abs (!i) = (s.abs (!i)).drop n := by
+  have := (step_refines s (.steal i n) h trivial rfl).1
+  simp only [specStep, Op.qi, Prod.mk.injEq] at this
+  exact this
+
+/-- chunkqueue_read_data(): on success the caller gets exactly the first n
+    queued bytes and they are consumed; on failure nothing is consumed. -/
+theorem c17_read_data (s : Sys) (i : Bool) (n : Nat) (h : Inv s) :
+    match (step s (.readData i n)).2 with
+    | .read (some d) => d = (s.abs i).take n ∧ d.length = n ∧ (step s (.readData i n)).1.abs i = (s.abs i).drop n
+    | _ => (step s (.readData i n)).1.abs i = s.abs i := by
+  obtain ⟨h1, h2⟩ := step_refines s (.readData i n) h trivial rfl
+  generalize (step s (.readData i n)).2 = r at h1 h2
+  cases r with
+  | read d =>
+    cases d with
+    | some d =>
+      simp only [specStep, Op.qi, Prod.mk.injEq, resOK] at h1 h2
+      exact ⟨h2.1, h2.2, h1.1⟩
+    | none =>
+      simp only [specStep, Op.qi, Prod.mk.injEq] at h1
+      exact h1.1
+  | _ =>
+    simp only [specStep, Op.qi, Prod.mk.injEq] at h1
+    exact h1.1
+
+/-- chunkqueue_reset(): the queue is empty, its counters are zero. -/
+theorem c17_reset_empties (s : Sys) (i : Bool) :
+    ((step s (.reset i)).1.get i).chunks = [] ∧ ((step s (.reset i)).1.get i).bytesIn = 0 ∧
+      ((step s (.reset i)).1.get i).bytesOut = 0 := by
+  cases i <;> exact ⟨rfl, rfl, rfl⟩
+
+/-! ### non-vacuity -/
+
+/-- the invariant holds initially, whatever the configuration and schedules -/
+example (w : World) (h : w.nfiles = 0) (hfiles : ∀ fid, (w.files fid).content = []) : Inv (init w h) :=
+  ⟨fun fid _ => by simp [sz, hfiles, init], ⟨ValidAll.nil _, rfl⟩, ⟨ValidAll.nil _, rfl⟩⟩
+
+/-- a concrete history: append, spill to a temp file under a short write
+    followed by ENOSPC with a second upload dir, steal, read -/
+def demoWorld : World := { cs := 1024, defTempSize := 4096, ndirs := 2, wsched := [.short 2, .enospc] }
+
+def demoOps : List Op :=
+  [.appendMem false [1, 2, 3, 4, 5], .stealWithTempfiles true 4, .steal false 1, .readData true 2]
+
+example : (run (init demoWorld rfl) demoOps).abs true = [4] := by decide
+example : (run (init demoWorld rfl) demoOps).abs false = [5, 1] := by decide
+example : ((run (init demoWorld rfl) demoOps).get true).length = 1 := by decide
+example : OpOK (init demoWorld rfl) (.appendMem false [1, 2, 3]) := trivial
+example : (Op.steal true 4).spills = false := rfl
 
 end LtVerif.C17
